@@ -3,7 +3,6 @@ import CacheVerif.Generated.DeepSimp
 import CacheVerif.Model.CacheOf
 import CacheVerif.Proofs.DeepCache
 /-!
-# (derived from DeepCache.lean by tools/mk_deep_of.sh — edit that file, then regenerate)
 # The hand-written model M2 (`Model.CacheOf`) is the meaning of the current text of `xsync_mapof.go`
 
 For every state and every operation, running the method of the *generated* syntax (`Gen.Deep.xsyncMap_*`, printed
@@ -273,7 +272,7 @@ theorem deep_deleteExpired (s : CSt K V) :
     case hcall =>
       intro k i w ev hw
       cases w; simp only at hw; subst hw
-      rename_i items _ _ _ _ _ _
+      rename_i items _ _ _ _ _ _ _ _
       by_cases he : Gen.itemOf_expiredWithNow i.e s.now
       · cases hg : items.get k with
         | none => simp [deep_simp, hide, he, hg, Model.CacheOf.sweep, Model.CacheOf.sweepFn]
@@ -287,7 +286,7 @@ theorem deep_deleteExpired (s : CSt K V) :
     case hcall =>
       intro k i w ev hw
       cases w; simp only at hw; subst hw
-      rename_i items _ _ _ _ _ _
+      rename_i items _ _ _ _ _ _ _ _
       by_cases he : Gen.itemOf_expiredWithNow i.e s.now
       · cases hg : items.get k with
         | none => simp [deep_simp, hide, he, hg, Model.CacheOf.sweep, Model.CacheOf.sweepFn]
